@@ -3417,8 +3417,14 @@ def norm_adaptors(F, t, depth=0):
             args_ = x[2][1]
             if cl_[0] == "closure" and cl_[1] in F.bodies and args_[0] == "tuple" and not F.bodies[cl_[1]].natural_loops():
                 rt_ = nosite(deep_strip(Terms(F.bodies[cl_[1]]).return_term()))
-                if rt_[0] != "phi":
-                    return norm_adaptors(F, substitute_closure(rt_, cl_[2], tuple(norm_adaptors(F, a_, depth + 1) for a_ in args_[1])), depth + 1)
+                # (payload convention: the Ok/Some value of a fallible closure stands for its result; error exits are dropped)
+                kept_ = []
+                for a_ in (list(rt_[1]) if rt_[0] == "phi" else [rt_]):
+                    if is_err_value(a_) or result_variant(a_) in ("Err", "None"):
+                        continue
+                    kept_.append(agg_payload(a_) if result_variant(a_) in ("Ok", "Some") else a_)
+                if len(kept_) == 1:
+                    return norm_adaptors(F, substitute_closure(kept_[0], cl_[2], tuple(norm_adaptors(F, a_, depth + 1) for a_ in args_[1])), depth + 1)
         # x.map_or(d, f) = f(x) when present, d otherwise: ('default', f(x), d); is_some_and / is_none_or likewise
         m = x[0] == "call" and depth < 4 and re.search(r"(Option::<T>|Result::<T, E>)::(map_or|is_some_and|is_none_or|is_ok_and)$", x[1])
         if m and len(x[2]) == (3 if m.group(2) == "map_or" else 2):
